@@ -13,11 +13,15 @@ import (
 	"github.com/openconfig/goyang/pkg/yang"
 	"verifharness/core"
 	"verifharness/fam/schema"
+	"verifharness/fam/text"
 )
 
 func init() {
 	core.Register(&core.Family{Name: "registry", Exec: exec, Classify: classify})
 	schema.C13Registry = Check
+	schema.RegistryReg = RegOnly
+	schema.RegistryFs = FsOnly
+	text.Files = FsOnly
 }
 
 type desc struct {
@@ -117,6 +121,7 @@ func moduleText(d desc) string {
 	for _, r := range revs {
 		fmt.Fprintf(&sb, "  revision %s;\n", date(r))
 	}
+	fmt.Fprintf(&sb, "  container c { leaf x { type string; default %q; } }\n", d.Tag)
 	sb.WriteString("}\n")
 	return sb.String()
 }
@@ -179,12 +184,66 @@ func exec(kind byte, body []byte) *core.Verdict {
 			fmt.Sscan(r, &ri)
 			rd = fmt.Sprintf(" revision-date %s;", date(ri))
 		}
-		if err := ms.Parse(fmt.Sprintf("module i%s { namespace \"urn:i%s\"; prefix i%s; import a { prefix a;%s } }", r, r, r, rd), "i"+r+".yang"); err != nil {
+		// the importer also augments and deviates a: paths under the prefix reach the tree of the module the import denotes
+		if err := ms.Parse(fmt.Sprintf("module i%s { namespace \"urn:i%s\"; prefix i%s; import a { prefix a;%s }\n augment \"/a:c\" { leaf from-i%s { type string; } }\n deviation \"/a:c/a:x\" { deviate replace { default \"dev-i%s\"; } }\n}", r, r, r, rd, r, r), "i"+r+".yang"); err != nil {
 			return &core.Verdict{Infra: "importer does not parse: " + err.Error()}
 		}
 		_ = want
 	}
-	ms.Process()
+	perrs := ms.Process()
+	allBound := true
+	for _, want := range c.Imports {
+		if want == "none" {
+			allBound = false
+		}
+	}
+	if allBound && len(perrs) == 0 {
+		byTag := map[string]*yang.Module{}
+		for _, m := range ms.Modules {
+			if m.Name == "a" {
+				byTag[tagOf(m)] = m
+			}
+		}
+		targeted := map[string][]string{}
+		for r, want := range c.Imports {
+			targeted[want] = append(targeted[want], "dev-i"+r)
+		}
+		for r, want := range c.Imports {
+			tm, im := byTag[want], ms.Modules["i"+r]
+			if tm == nil || im == nil {
+				continue
+			}
+			tc := yang.ToEntry(tm).Dir["c"]
+			if got := yang.ToEntry(im).Find("/a:c"); got != tc {
+				return fail("path-reaches-another-revision", "from importer i%s (import of a with revision-date %s, denoting %s) Find(\"/a:c\") returns %v, not the container of %s", r, r, want, got != nil, want)
+			}
+			if tc == nil || tc.Dir["from-i"+r] == nil {
+				return fail("augment-lands-in-another-revision", "the augment of importer i%s (import denoting %s) is not in the tree of %s", r, want, want)
+			}
+		}
+		for tag, m := range byTag {
+			x := yang.ToEntry(m).Dir["c"].Dir["x"]
+			got := strings.Join(x.Default, ",")
+			ok := got == tag && len(targeted[tag]) == 0
+			for _, d := range targeted[tag] {
+				ok = ok || got == d
+			}
+			if !ok {
+				return fail("deviation-lands-in-another-revision", "leaf x of %s has default %q; deviations aimed at it: %v", tag, got, targeted[tag])
+			}
+			for n := range yang.ToEntry(m).Dir["c"].Dir {
+				if strings.HasPrefix(n, "from-i") {
+					found := false
+					for _, d := range targeted[tag] {
+						found = found || strings.TrimPrefix(d, "dev-") == strings.TrimPrefix(n, "from-")
+					}
+					if !found {
+						return fail("augment-lands-in-another-revision", "the tree of %s holds %s although that importer's import denotes another module", tag, n)
+					}
+				}
+			}
+		}
+	}
 	for r, want := range c.Imports {
 		im := ms.Modules["i"+r]
 		got := "none"
@@ -253,6 +312,23 @@ func findFile(c *cas) *core.Verdict {
 	if c.Chosen.Dir != 0 {
 		want = dirs[c.Chosen.Dir-1] + "/" + fname(c.Chosen.File)
 	}
+	if rerr == nil && got == want && ms.Modules[c.Want.Mod] != nil && ms.Modules[c.Want.Mod].Source != nil {
+		// positions name the file that was read
+		loc := ms.Modules[c.Want.Mod].Source.Location()
+		file := loc
+		if k := strings.Index(loc, ".yang:"); k >= 0 {
+			file = loc[:k+5]
+		}
+		abs, _ := filepath.Abs(file)
+		wantAbs := filepath.Join(tmp, want)
+		a1, _ := filepath.EvalSymlinks(abs)
+		a2, _ := filepath.EvalSymlinks(wantAbs)
+		if a1 == "" || a1 != a2 {
+			v.OK, v.Sig = false, "position-names-another-file"
+			v.Detail = fmt.Sprintf("Read(%q) opened %s but the module statement reports %s", name, want, loc)
+			return v
+		}
+	}
 	if got != want {
 		v.OK, v.Sig = false, "wrong-file-chosen"
 		if want == "none" {
@@ -267,6 +343,18 @@ func findFile(c *cas) *core.Verdict {
 }
 
 // Check is the registry / file-choice part of C13 (the submodule part is in the schema family).
+// RegOnly / FsOnly: the same cases under another property (C08, C17: what a prefix reaches; C16: the file name in positions)
+func RegOnly(r *core.Run) {
+	r.DirectionA("registry", core.TLCOpts{Module: "MCRegistry", Cfg: "MCRegistry_quick.cfg", Workers: 12}, func(i int64, body string) bool {
+		return strings.Contains(body, `"mode":"reg"`)
+	})
+}
+func FsOnly(r *core.Run) {
+	r.DirectionA("registry", core.TLCOpts{Module: "MCRegistry", Cfg: "MCRegistry_quick.cfg", Workers: 12}, func(i int64, body string) bool {
+		return strings.Contains(body, `"mode":"fs"`)
+	})
+}
+
 func Check(r *core.Run) {
 	mod, cfg := "MCRegistry", "MCRegistry_quick.cfg"
 	if r.Tier == "thorough" {
